@@ -123,3 +123,18 @@ Proof.
   replace (form_decode s_info_hash) with s_info_hash by reflexivity. rewrite bytes_eqb_refl.
   rewrite decode_serialize by exact Hh. reflexivity.
 Qed.
+
+(* consequences of the round trip: distinct hashes never share an info_hash parameter or an announce URL *)
+Theorem serialize_injective a b : Forall (fun x => x < 256) a -> Forall (fun x => x < 256) b ->
+  byte_serialize a = byte_serialize b -> a = b.
+Proof.
+  intros Ha Hb E. rewrite <- (decode_serialize a Ha), <- (decode_serialize b Hb), E. reflexivity.
+Qed.
+
+Theorem create_url_injective announce h1 h2 : Forall (fun x => x < 256) h1 -> Forall (fun x => x < 256) h2 ->
+  create_url announce h1 = create_url announce h2 -> h1 = h2.
+Proof.
+  intros H1 H2 E. unfold create_url in E.
+  repeat (apply app_inv_head in E || (injection E as E)).
+  apply serialize_injective; assumption.
+Qed.
